@@ -1,4 +1,8 @@
 """C02 -- composition and structure-preserving rewrites never change the matrix (DESIGN section 4, C02)."""
+import math
+import re
+import warnings
+
 import torch
 from hypothesis import strategies as st
 
@@ -27,6 +31,23 @@ ASSUMPTIONS = [
 ROOTFORM = ("Root", "LowRankRoot", "Chol")
 BINARY = ["add", "add", "sub", "radd_tensor", "rsub_tensor", "mul", "matmul", "matmul", "cat"]
 UNARY = ["sum", "prod", "expand", "repeat", "squeeze", "unsqueeze", "permute", "transpose", "add_diagonal", "add_jitter", "add_low_rank", "cat_rows", "mul_scalar", "rmul_scalar", "div_scalar", "neg_mul"]
+
+
+_JIT_RE = re.compile(r"added jitter of ([0-9.eE+-]+)")
+
+
+def _jitter_reported(ws):
+    """largest Cholesky jitter psd_safe_cholesky REPORTED (NumericalWarning 'added jitter of X'); 0.0 if it never added any:
+    its first attempt is without jitter and silent, so no warning means the factorization is of the matrix itself"""
+    out = 0.0
+    for w in ws:
+        m = _JIT_RE.search(str(w.message))
+        if m:
+            try:
+                out = max(out, float(m.group(1)))
+            except ValueError:
+                out = max(out, tol.JITTER_MAX["f32"])
+    return out
 
 
 def _well_conditioned(ref):
@@ -102,6 +123,17 @@ def programs(draw, tier):
         ex = tuple(ex) + ("Permutation", "TransposePermutation")
     cfg = gen.Cfg(dt=dt, exclude=ex)
     names = sorted(nm for nm in gen.PREDS if cfg.ok(nm) and (dt == "f32" or nm not in ("Permutation", "TransposePermutation")))
+    if draw(st.integers(0, 7)) == 0:
+        # reduction family: prod / sum over a batch dimension with 3..7 members (the pairwise product pads odd counts
+        # with a root of the all-ones matrix in EVERY halving round) of PSD operators, root-form ones in particular
+        heads = [h for h in ("Root", "Root", "LowRankRoot", "LowRankRoot", "LowRankRootAddedDiag", "Dense", "Diag", "Sum", "Chol", "Toeplitz", "ConstantMul", "AddedDiag") if h in names]
+        rb = draw(st.sampled_from([(3,), (4,), (5,), (6,), (6,), (7,), (2, 6), (6, 2), (5, 1)]))
+        rn = draw(st.integers(2, 4))
+        A = _recipe_with_head(draw, cfg, draw(st.sampled_from(heads)), "psd", rn, rn, rb) or gen.gen(draw, cfg, "psd", rn, rn, rb, 2)
+        red = [{"k": draw(st.sampled_from(["prod", "prod", "sum"])), "a": -1, "p": draw(st.integers(0, 10**6)), "s": {"kind": "pyfloat", "v": 0.5}}]
+        if draw(st.booleans()):
+            red.append({"k": draw(st.sampled_from(UNARY)), "a": -1, "p": draw(st.integers(0, 10**6)), "s": draw(scalars(dt, ()))})
+        return {"dt": dt, "operands": [{"kind": "op", "recipe": A}], "steps": red, "psd": True}
     HA = draw(st.sampled_from(names))
     batch = draw(st.sampled_from(gen.BATCHES))
     n = draw(st.integers(1, 5))
@@ -212,7 +244,7 @@ def check(case):
                 lib = R.build(r)
             except Exception as e:
                 raise Violation("C02|build|%s|exc:%s" % (r["op"], X.describe(e)), "constructor raised %r for %s" % (e, R.class_path(r)))
-            pool.append({"lib": lib, "ref": refmodel.dense(r), "mag": refmodel.dense_abs(r), "head": r["op"], "psd": case.get("psd", False), "loose": any(nn["op"] == "Mul" for nn in R.walk(r)), "depth": R.depth(r)})
+            pool.append({"jitv": R.LAST_BUILD_JITTER, "lib": lib, "ref": refmodel.dense(r), "mag": refmodel.dense_abs(r), "head": r["op"], "psd": case.get("psd", False), "loose": any(nn["op"] == "Mul" for nn in R.walk(r)), "depth": R.depth(r)})
             labels += ["class:" + c for c in R.classes(r)]
         else:
             t = L.materialise(o["t"])
@@ -235,6 +267,7 @@ def check(case):
         p = stp.get("p", 0)
         loose = a["loose"]
         jit_scale = a.get("jit", 0.0)
+        jitv = a.get("jitv", 0.0)
         opk = k
         fn_lib = None
         # ---------------- choose concrete parameters against the current shape; skip steps that do not apply
@@ -242,6 +275,7 @@ def check(case):
             b = pool[stp["b"]]
             loose = loose or b["loose"]
             jit_scale = jit_scale + b.get("jit", 0.0)
+            jitv = max(jitv, b.get("jitv", 0.0))
             if k == "add":
                 fn_lib, ref, mag = (lambda: a["lib"] + b["lib"]), ref_a + b["ref"], mag_a + b["mag"]
                 loose = loose or b["head"] in ROOTFORM
@@ -300,10 +334,16 @@ def check(case):
             if nb == 0 or not a["psd"] or ref_a.shape[-1] != ref_a.shape[-2]:
                 continue
             dim = _pick(p, list(range(nb)))
-            if ref_a.shape[dim] > 6:
+            if ref_a.shape[dim] > 7:
                 continue
             fn_lib, ref, mag = (lambda: a["lib"].prod(dim)), ref_a.prod(dim), mag_a.prod(dim)
             loose = True
+            # pairwise products through root decompositions: every member (and every intermediate product) gets the Cholesky
+            # jitter e on its diagonal, so the result is off by about e * sum_i prod_{j != i} |A_j| per halving round
+            mm = mag_a.amax(dim=(-2, -1)).movedim(dim, -1)
+            kk = mm.shape[-1]
+            others = sum(torch.cat([mm[..., :i], mm[..., i + 1 :]], -1).prod(-1) for i in range(kk))
+            jit_scale = (jit_scale + 1.0) * (1.0 + float(others.max())) * (1 + math.ceil(math.log2(max(kk, 2))))
         elif k == "expand":
             extra = _pick(p, [(), (2,), (1,), (3, 1)])
             tgt = list(extra) + [(_pick(p // 7 + i, [2, 3]) if s_ == 1 else s_) for i, s_ in enumerate(ref_a.shape[:-2])] + list(ref_a.shape[-2:])
@@ -406,10 +446,13 @@ def check(case):
             raise Violation("C02|%s|%s|%s" % (k, sig_head, symptom), "%s :: step %d of %s, operand types %s" % (detail, si, kinds, [_typename(a["lib"])] + ([_typename(pool[stp["b"]]["lib"])] if "b" in stp else [])))
 
         try:
-            res = fn_lib()
-            rt = _typename(res)
-            dense_res = res if torch.is_tensor(res) else res.to_dense()
-            shp_attr = tuple(res.shape)
+            with warnings.catch_warnings(record=True) as ws1:
+                warnings.simplefilter("always")
+                res = fn_lib()
+                rt = _typename(res)
+                dense_res = res if torch.is_tensor(res) else res.to_dense()
+                shp_attr = tuple(res.shape)
+            jitv = max(jitv, _jitter_reported(ws1))
         except Exception as e:
             if X.is_declined(e, opk):
                 labels.append("declined:%s:%s:%s" % (k, sig_head, str(e)[:50]))
@@ -427,21 +470,23 @@ def check(case):
         if dense_res.numel():
             S = mag + (float(mag.max()) * 1e-3)
             if loose:
-                S = torch.full_like(S, float(S.max())) * tol.root_slack(dt, max(ref.shape[-2:]) if ref.dim() >= 2 else 1)
+                # results defined through root decompositions: normwise; the jitter part only if jitter was actually added
+                nn_ = max(ref.shape[-2:]) if ref.dim() >= 2 else 1
+                S = torch.full_like(S, float(S.max())) * (8.0 * nn_ + 4.0 * jitv / tol.U[dt] / 64.0)
             extra = 8.0 if any("Toeplitz" in l for l in labels) else 1.0
             bound = tol.exact_bound(S, dt, max(ref.shape[-2:]) if ref.dim() >= 2 else 1, a.get("depth", 1) + len(kinds) + 1, extra)
             if loose:
                 # jitter carried over from earlier steps grows with the result (scalar factors, matmul, sums over batch)
                 if jit_scale and float(mag_a.max()) > 0:
                     jit_scale = jit_scale * max(1.0, float(mag.max()) / float(mag_a.max()))
-                bound = bound + 16.0 * tol.JITTER_MAX[dt] * (1.0 + float(mag.max()) + jit_scale)
+                bound = bound + 16.0 * 4.0 * jitv * (1.0 + float(mag.max()) + jit_scale)
             ratio, i = tol.worst_excess(dense_res, ref, bound)
             if ratio > 1.0:
                 fail("value", "max |lib-ref|/bound = %.3g (lib=%r ref=%r flat %s) result type %s" % (ratio, dense_res.reshape(-1)[i].item(), ref.reshape(-1)[i].item(), i, rt))
         new_psd = a["psd"] and k in ("add_jitter", "add_low_rank", "cat_rows", "expand", "repeat", "squeeze", "unsqueeze", "permute", "transpose", "prod", "sum") and not (k == "sum" and stp.get("a") is not None and False)
         if k == "sum":
             new_psd = a["psd"] and torch.is_tensor(ref) and ref.dim() >= 2 and not torch.is_tensor(res)
-        pool.append({"lib": res, "ref": ref, "mag": mag, "head": rt, "psd": bool(new_psd), "loose": loose, "jit": jit_scale, "depth": a.get("depth", 1) + 1})
+        pool.append({"lib": res, "ref": ref, "mag": mag, "head": rt, "psd": bool(new_psd), "loose": loose, "jit": jit_scale, "jitv": jitv, "depth": a.get("depth", 1) + 1})
         if len(kinds) >= 2 and rtypes[0] not in ("Sum", "Dense", "Tensor"):
             nontrivial = True
     labels += ["step:" + k for k in kinds] + ["rtype:" + t for t in rtypes] + ["dtype:" + dt, "nsteps:%d" % executed]
